@@ -184,7 +184,7 @@ def run(ctx):
         ctx.fingerprint(["ex", pi, h])
         if i % 501 == 0:
             ctx.sample({"configs": pairs[pi], "history": h})
-        run_history(pairs[pi], h, seed=1 + (i % 2), tag="ex")
+        run_history(pairs[pi], h, seed=1 + (i % 4), tag="ex")
     n = ctx.pick(60, 3000)
     for i, rng in ctx.cases("random", n):
         cfgs = {k: (rng.choice(["xml", "xml", "pb"]), rng.randint(1, 12)) for k in "ABC"}
@@ -192,4 +192,4 @@ def run(ctx):
         for _ in range(rng.randint(3, 11)):
             ev.append((rng.choice(["construct", "write", "write", "write-scenario", "skip"]), rng.choice("ABC")))
         ctx.fingerprint(["rnd", sorted(cfgs.items()), ev])
-        run_history(cfgs, ev, seed=1 + (i % 2), tag="rnd")
+        run_history(cfgs, ev, seed=1 + (i % 6), tag="rnd")
